@@ -4,7 +4,7 @@ import fcntl, hashlib, json, os, re, shutil, subprocess, sys, time
 VERIF = os.path.dirname(os.path.dirname(os.path.dirname(os.path.abspath(__file__))))
 REPO = os.environ.get("VERIF_REPO", "/repo")
 COQ = os.path.join(VERIF, "coq")
-HARNESS = os.path.join(VERIF, "harness")
+HARNESS = os.environ.get("VERIF_HARNESS", os.path.join(VERIF, "harness"))  # override: development only
 WORK = os.environ.get("VERIF_WORK", os.path.join(VERIF, "work"))
 EVIDENCE_DIR = os.environ.get("VERIF_EVIDENCE_DIR", os.path.join(VERIF, "evidence"))
 
